@@ -25,7 +25,7 @@ block('FINDINGS','\n'.join('* '+re.sub(r'^property=(C\d+) (\w+) ',r'\1, fix comm
 rows=['| seed | change | needs | result | failing obligations |','|---|---|---|---|---|']
 for f in sorted(glob.glob(V+'/seeded/C*-*/meta.json')):
     m=json.load(open(f)); r=m['result']
-    res='caught' if r.get('caught') else ('patch no longer applies' if not r.get('applies') else '**missed**')
+    res='caught' if r.get('caught') else ('no longer breaks the property (see neutralised.txt)' if r.get('neutralised') else ('patch no longer applies' if not r.get('applies') else '**missed**'))
     v=[x.replace(' no-failing-input-found','') for x in r.get('violations',[])]
     vs='; '.join(v[:3])+(f' (+{len(v)-3} more)' if len(v)>3 else '')
     rows.append(f"| {m['seed']} | {m['change']} | {m['needs_to_manifest']} | {res} | {vs} |")
